@@ -105,10 +105,12 @@ Verdict(r) ==
         pResave == IF r.resave = "same" THEN {} ELSE {M("prop.resave", r.resave, "")}
         pAgain == IF r.saveAgain = "same" THEN {} ELSE {M("prop.saveAgain", r.saveAgain, "")}
         pCycle == {M("prop.cycle2", r.cycle2[k][1], r.cycle2[k][2]) : k \in 1..Len(r.cycle2)}
+        \* the reader hands back (decompressed) the bytes the independent encoder put into the file
+        pRaw == {M("prop.rawAsEncoded", r.rawMismatch[k], "") : k \in 1..Len(r.rawMismatch)}
     IN IF ~accOK THEN {M("access.unknownView", "", "")}
-       ELSE IF r.failed # <<>> THEN {M("prop.completes", r.failed[1], r.failed[2])}
+       ELSE IF r.failed # <<>> THEN {M("prop.completes", r.failed[1], r.failed[2])} \cup pRaw
        ELSE bAccess \cup f.bad \cup bStack \cup bAfter \cup bModel \cup bChanged \cup bLoss
-            \cup pView \cup pBytes \cup pNoAcc \cup pHead \cup pMeta \cup pCache \cup pResave \cup pAgain \cup pCycle
+            \cup pView \cup pBytes \cup pNoAcc \cup pHead \cup pMeta \cup pCache \cup pResave \cup pAgain \cup pCycle \cup pRaw
 
 Init == i = 0
 Next == i < N /\ i' = i + 1
